@@ -367,7 +367,7 @@ class Program:
 def fortgen_program(rng, tag):
     from vlib import fortgen, minifort as mf
     g = fortgen.Gen(rng, max_depth=2, allow_exit=False)
-    stmts = g.program(rng.choice([4, 5, 6]))
+    stmts = g.program(rng.choice([3, 4]))
     src = mf.to_fortran("rnd_%s" % tag, stmts, g.decls())
     return Program("fortgen_%s" % tag, "generic", source=src)
 
